@@ -14,9 +14,10 @@ RULE = (
     "programs with two bindings: name pairs = every ordered pair of the variant family {myVar, my_var, MY_VAR, MyVar, "
     "_my_var, myvar} plus adversarial pairs (builtins list/id, generated names a/b, var_1, i/j, "
     "pyrefact_overused_constant_0, '_', d_x/d, name equal to the would-be new name) x binding forms (assignment, "
-    "augmented, annotated, tuple unpacking, for, with-as, import-as, def, class, parameter, keyword use, global, "
-    "nonlocal, comprehension target, walrus, self.attr, class attribute): first binding any of the 17 forms, second "
-    "binding one of 6 core forms (thorough: all 17) x scope (module, function; thorough: method, nested function); "
+    "augmented, annotated, tuple unpacking, for, with-as, import-as, def, class, parameter, keyword-only / positional-only / "
+    "*args / **kwargs / lambda parameter, except-as, keyword use, global, nonlocal, comprehension target, walrus, self.attr, "
+    "class attribute): first binding any of the 23 forms, second binding one of 8 core forms (thorough: all 23); same-name "
+    "pairs (shadowing) included x scope (module, function; thorough: method, nested function); "
     "each binding gets a distinct value and is read and printed after both bindings. drivers: the nine renaming rules "
     "alone, and format_code (quick: module scope and both bindings of a core form). oracle: original and result executed, identical output (a captured "
     "or half-renamed binding changes a printed value or raises NameError / UnboundLocalError / AttributeError). "
@@ -28,7 +29,8 @@ ASSUMPTIONS = [
 ]
 
 FAMILY = ["myVar", "my_var", "MY_VAR", "MyVar", "_my_var", "myvar"]
-EXTRA_PAIRS = [("list", "myVar"), ("myVar", "list"), ("id", "my_id"), ("a", "b"), ("b", "a"), ("var_1", "var_2"), ("i", "j"),
+SAME_NAME = [("myVar", "myVar"), ("my_var", "my_var"), ("MY_VAR", "MY_VAR"), ("limit", "limit"), ("a", "a"), ("_x", "_x")]
+EXTRA_PAIRS = SAME_NAME + [("list", "myVar"), ("myVar", "list"), ("id", "my_id"), ("a", "b"), ("b", "a"), ("var_1", "var_2"), ("i", "j"),
                ("pyrefact_overused_constant_0", "myVar"), ("_", "myVar"), ("myVar", "_"), ("d_x", "d"), ("d", "d_x"),
                ("someName", "some_name"), ("SOME_NAME", "some_name"), ("x", "X"), ("max", "maxValue"), ("self", "myVar"),
                ("cls", "my_var"), ("k", "key"), ("value", "val_ue")]
@@ -50,6 +52,12 @@ FORMS = {
     "class": ("class {n}:\n    val = {v}\n", "{n}.val"),
     "param": ("def fn_{k}({n}):\n    return {n} + 1\n", "fn_{k}({v})"),
     "kwarg": ("def fk_{k}({n}=0):\n    return {n} + 2\n", "fk_{k}({n}={v})"),
+    "kwonly": ("def fo_{k}(*, {n}=0):\n    return {n} + 3\n", "fo_{k}({n}={v}), fo_{k}()"),
+    "posonly": ("def fq_{k}({n}, /):\n    return {n} + 4\n", "fq_{k}({v})"),
+    "vararg": ("def fv_{k}(*{n}):\n    return {n}\n", "fv_{k}({v}, 0)"),
+    "starkwarg": ("def fw_{k}(**{n}):\n    return sorted({n})\n", "fw_{k}(zz={v})"),
+    "lambda_param": ("fl_{k} = lambda {n}: {n} + 5\n", "fl_{k}({v})"),
+    "except_as": ("try:\n    raise ValueError({v})\nexcept ValueError as {n}:\n    saved_{k} = {n}.args\n", "saved_{k}"),
     "global": ("def setg_{k}():\n    global {n}\n    {n} = {v}\nsetg_{k}()\n", "{n}"),
     "nonlocal": ("def outer_{k}():\n    {n} = 0\n    def inner():\n        nonlocal {n}\n        {n} = {v}\n    inner()\n    return {n}\n", "outer_{k}()"),
     "comp": ("r_{k} = [{n} * 2 for {n} in ({v},)]\n", "r_{k}"),
@@ -57,7 +65,7 @@ FORMS = {
     "selfattr": ("class C_{k}:\n    def __init__(self):\n        self.{n} = {v}\n    def get(self):\n        return self.{n}\n", "C_{k}().get(), C_{k}().{n}"),
     "clsattr": ("class D_{k}:\n    {n} = {v}\n", "D_{k}.{n}, D_{k}().{n}"),
 }
-CORE_FORMS = ["assign", "for", "def", "param", "clsattr", "selfattr"]
+CORE_FORMS = ["assign", "for", "def", "param", "clsattr", "selfattr", "kwonly", "lambda_param"]
 NO_GLOBAL_IN = ("function", "method", "nested")
 
 PRE = "import contextlib\n@contextlib.contextmanager\ndef cm(x):\n    yield x\n"
